@@ -126,6 +126,34 @@ let run line =
             String.concat " " ["ok"; string_of_z loc.l_nvlr; string_of_z loc.l_offset; string_of_z loc.l_nevlr;
                                string_of_z loc.l_estart; string_of_int (List.length body); hex vb; hex eb; recs_tok ks;
                                (match eo with None -> "none" | Some l -> recs_tok l)]))
+  | ["readfile"; hs; v14; nv; off; ne; es; pos; b] ->
+      (* a file as it is (written by anything): header fields that locate the records + everything behind the header;
+         read by a source that can seek, and by one that can only be read forward and stands at pos *)
+      let hsz = z_of_string hs in
+      let loc = { l_nvlr = z_of_string nv; l_offset = z_of_string off; l_nevlr = z_of_string ne; l_estart = z_of_string es } in
+      let body = bytes_of_tok b in
+      let show = function
+        | Err er -> "rerr " ^ err_name er
+        | Ok (ks, eo) -> "ok " ^ recs_tok ks ^ " " ^ (match eo with None -> "none" | Some l -> recs_tok l) in
+      show (read_file hsz (bool_of_tok v14) loc body) ^ " # " ^ show (read_file_from hsz (bool_of_tok v14) loc (z_of_string pos) body)
+  | ["append"; hs; v14; nv; off; ne; es; npts; b; np; evl] ->
+      (* an append session on the file (located as above, npts bytes of points): np = the bytes appended, evl = the
+         list the appender holds at close (k-prefixed records were read from the file) or none *)
+      let kv t = if String.length t > 0 && t.[0] = 'k' then vlr_factory (vlr_of_tok (String.sub t 1 (String.length t - 1)))
+                 else KRaw (vlr_of_tok t) in
+      let kl t = List.map kv (split_on '|' t) in
+      let hsz = z_of_string hs in
+      let loc = { l_nvlr = z_of_string nv; l_offset = z_of_string off; l_nevlr = z_of_string ne; l_estart = z_of_string es } in
+      (match append_file hsz (bool_of_tok v14) loc (bytes_of_tok b) (z_of_string npts) (bytes_of_tok np)
+               (if evl = "none" then None else Some (kl evl)) with
+       | Err er -> "err " ^ err_name er
+       | Ok (loc', body') ->
+         (match read_file hsz (bool_of_tok v14) loc' body' with
+          | Err er -> "rerr " ^ err_name er
+          | Ok (ks, eo) ->
+            String.concat " " ["ok"; string_of_z loc'.l_nvlr; string_of_z loc'.l_offset; string_of_z loc'.l_nevlr;
+                               string_of_z loc'.l_estart; hex body'; recs_tok ks;
+                               (match eo with None -> "none" | Some l -> recs_tok l)]))
   | ["ser_lookup"; l] -> res hex (ser_lookup (lookup_of_tok l))
   | ["wf_lookup"; p] -> tok_of_bool (wf_lookup_payload (bytes_of_tok p))
   | ["wf_geokeys"; p] -> tok_of_bool (wf_geokeys_payload (bytes_of_tok p))
